@@ -32,5 +32,12 @@ for mf in sorted(glob.glob("/verif/benign/*/meta.json")):
     benign.append(f"| `{os.path.basename(os.path.dirname(mf))}` | {m['property']}{' +' + ','.join(m['also_run_under']) if m.get('also_run_under') else ''} | {fns} | {kind} |")
 btbl = ("| id | run under | functions | kind of refactoring |\n|---|---|---|---|\n" + "\n".join(benign)) if benign else "(none yet)"
 s = re.sub(r"<!-- BEGIN-BENIGN-TABLE -->.*?<!-- END-BENIGN-TABLE -->", "<!-- BEGIN-BENIGN-TABLE -->\n" + btbl.replace("\\", "\\\\") + "\n<!-- END-BENIGN-TABLE -->", s, flags=re.S)
+alt = []
+for mf in sorted(glob.glob("/verif/altfix/*/meta.json")):
+    m = json.load(open(mf))
+    ap = str(m.get("approach") or "")[:150].replace("|", "/").replace("\n", " ")
+    alt.append(f"| `{os.path.basename(os.path.dirname(mf))}` | {m.get('subject','')[:75]} | {', '.join(x.split('/')[-1] for x in m.get('files', []))} | {ap} | {len(m.get('run_under') or [])} |")
+atbl = ("| id (reverted fix) | defect | files | the other repair | checks replayed |\n|---|---|---|---|---|\n" + "\n".join(alt)) if alt else "(none yet)"
+s = re.sub(r"<!-- BEGIN-ALTFIX-TABLE -->.*?<!-- END-ALTFIX-TABLE -->", "<!-- BEGIN-ALTFIX-TABLE -->\n" + atbl.replace("\\", "\\\\") + "\n<!-- END-ALTFIX-TABLE -->", s, flags=re.S)
 open(p, "w").write(s)
 print("variants:", len(VARIANTS), "seeded:", len(seeded), "benign:", len(benign))
